@@ -100,7 +100,9 @@ JsonLabels ==
   \cup {Lbl("swap", r, r2, o, n, eq) : r \in JsonRegions, r2 \in JsonRegions, o \in JCls, n \in JCls, eq \in BOOLEAN}
 \* classes that exist in a produced text: payload digits are "g", padding is "p"
 JsonLabelOk(l) ==
-  /\ (l.r = "j_pl" /\ l.k # "ins") => l.o = "g"
+  /\ (l.r \in {"j_pl", "j_last"} /\ l.k # "ins") => l.o = "g"
+  /\ (l.k = "swap" /\ l.r2 = "j_last") => l.n = "g"
+  /\ ~(l.k = "swap" /\ l.r = "j_last" /\ l.r2 = "j_last")
   /\ (l.r = "j_pad" /\ l.k # "ins") => l.o = "p"
   /\ (l.k = "swap" /\ l.r2 = "j_pl") => l.n = "g"
   /\ (l.k = "swap" /\ l.r2 = "j_pad") => l.n = "p"
@@ -108,7 +110,7 @@ JsonLabelOk(l) ==
   /\ (l.k = "swap") => \/ l.r = l.r2
                         \/ <<l.r, l.r2>> \in {<<"j_struct", "j_ver">>, <<"j_ver", "j_struct">>, <<"j_struct", "j_mode">>,
                                                <<"j_mode", "j_struct">>, <<"j_struct", "j_meta">>, <<"j_meta", "j_struct">>,
-                                               <<"j_struct", "j_pl">>, <<"j_pl", "j_pad">>, <<"j_pl", "j_struct">>,
+                                               <<"j_struct", "j_pl">>, <<"j_pl", "j_last">>, <<"j_last", "j_pad">>, <<"j_pl", "j_struct">>,
                                                <<"j_pad", "j_struct">>}
 
 \* --- outcome of opening the (possibly edited) message with key sequence k
@@ -228,8 +230,9 @@ Emit_Case ==
   (pc = "packed") =>
      PrintT(<<"CASE", ToJson([s |-> cs.s, snd |-> cs.snd, R |-> SortedKeys(cs.R),
                               openers |-> SetToSeq(KeySeqs), edit |-> EditTarget(cs)])>>)
+\* (the classes do not depend on slate and sender: printed for one of each)
 Emit_Label ==
-  (pc = "edited" /\ nedits = 1) =>
+  (pc = "edited" /\ nedits = 1 /\ cs.snd = None /\ cs.s = CHOOSE x \in Slates : TRUE) =>
      PrintT(<<"ELABEL", ToJson([form |-> ed.form, enc |-> cs.R # {}, l |-> ed.l, pred |-> PredOf(ed)])>>)
 Emit_Keys == (pc = "start") => PrintT(<<"KEYS", ToJson(KeyHome)>>)
 =============================================================================
